@@ -134,8 +134,51 @@ func preemptions(enabledAt [][]int, full []int, upto int) int {
 	return n
 }
 
+// branch coverage of the model's transition system, measured on the executed schedules: an edge is
+// (hook a goroutine left, hook it reached next). The edges that are the FAILING branch of a compare-and-swap
+// or a state check are rare under random scheduling; they are counted by name so that a hole is visible
+// in the evidence (and closed by a corpus schedule).
+var namedEdges = map[[2]int]string{
+	{17, 23}: "edge:rewake-cas-lost(run.cas.wake>run.exit)",
+	{17, 8}:  "edge:rewake-cas-won(run.cas.wake>run.next)",
+	{15, 18}: "edge:sleep-cas-failed(run.cas.sleep>run.swapT)",
+	{12, 11}: "edge:wait-cas1-failed(wait.cas1>cb)",
+	{14, 11}: "edge:wait-cas2(wait.cas2>cb)",
+	{9, 18}:  "edge:state-not-running(actor.state>run.swapT)",
+	{5, 6}:   "edge:wake-cas-won(run.cas>run.spawn)",
+	{25, 26}: "edge:kill-found-terminated(kill.swapZ>kill.storeT)",
+	{25, 27}: "edge:kill-sleeping(kill.swapZ>kill.swapT)",
+	{36, 11}: "edge:call-not-allowed(call.state>cb)",
+	{37, 1}:  "edge:mailbox-full",
+}
+var edgeSeen = map[[2]int]bool{}
+
+func countEdges(o *util.Out, r Result) {
+	last := map[int]int{}
+	for i, tid := range r.Full {
+		if i >= len(r.Obs) {
+			break
+		}
+		nl := r.Obs[i].Label
+		pl, ok := last[tid]
+		last[tid] = nl
+		if !ok {
+			continue
+		}
+		e := [2]int{pl, nl}
+		if !edgeSeen[e] {
+			edgeSeen[e] = true
+			o.Stats["edges-distinct"]++
+		}
+		if n, ok := namedEdges[e]; ok {
+			o.Stats[n]++
+		}
+	}
+}
+
 func emit(o *util.Out, c Case, r Result, kind string) {
 	idx := o.Add(coqCase(c, r), c)
+	countEdges(o, r)
 	o.Stats["kind:"+kind]++
 	o.Stats["steps"] += len(r.Full)
 	if r.Terms > 0 {
